@@ -6,6 +6,7 @@ use crate::field::{Field8, FieldElement};
 use crate::flp::gadgets::{Mul, ParallelSum};
 use crate::flp::types::{Count, SumVec};
 use crate::vdaf::xof::{Seed, Xof};
+use crate::flp::Flp;
 use crate::vdaf::Aggregator;
 use core::convert::Infallible;
 use rand_core::TryRng;
@@ -216,10 +217,10 @@ pub fn c16_p3_verify_init_bad_agg_id() {
 //@ harness: c16_p3_verify_init_short_proof
 //@ prop: C16
 //@ tier: thorough
-//@ cost: 900
-//@ timeout: 3000
+//@ cost: 600
+//@ timeout: 2400
 //@ funcs: Prio3::verify_init (leader arm)
-//@ bounds: Prio3<Count<GF(17)>>, 2 aggregators; leader share whose proofs_share has 4 instead of 5 elements, or whose measurement share has 0 or 2 elements
+//@ bounds: Prio3<Count<GF(17)>>, 2 aggregators; leader share whose proofs_share has 4 instead of 5 elements (element values concrete; verify key and nonce symbolic)
 //@ asserts: Err (no slice-range panic)
 //@ stubs: alloc::fmt::format; XOF = constant stream
 #[kani::proof]
@@ -227,16 +228,15 @@ pub fn c16_p3_verify_init_bad_agg_id() {
 #[kani::stub(alloc::fmt::format, fmt_stub)]
 pub fn c16_p3_verify_init_short_proof() {
     let vdaf: P3C = Prio3::new(2, 1, 0xFFFF_0001, Count::new()).unwrap();
-    let which: u8 = kani::any();
-    let share = match which {
-        0 => Prio3InputShare::<Field8, 4>::Leader { measurement_share: vec![any_elem()], proofs_share: vec![any_elem(); 4], joint_rand_blind: None },
-        1 => Prio3InputShare::<Field8, 4>::Leader { measurement_share: vec![], proofs_share: vec![any_elem(); 5], joint_rand_blind: None },
-        _ => Prio3InputShare::<Field8, 4>::Leader { measurement_share: vec![any_elem(); 2], proofs_share: vec![any_elem(); 5], joint_rand_blind: None },
+    let share = Prio3InputShare::<Field8, 4>::Leader {
+        measurement_share: vec![Field8::one()],
+        proofs_share: vec![Field8::one(); 4],
+        joint_rand_blind: None,
     };
     let public = Prio3PublicShare::<4> { joint_rand_parts: None };
-    let r = vdaf.verify_init(&[0; 4], b"", 0, &(), &[0; 16], &public, &share);
+    let r = vdaf.verify_init(&kani::any(), b"", 0, &(), &kani::any(), &public, &share);
     assert!(r.is_err());
-    kani::cover!(which == 0);
+    kani::cover!(true);
     core::mem::forget(r);
 }
 
@@ -260,4 +260,70 @@ pub fn c16_p3_random_size() {
     assert_eq!(s.random_size(), 2 * n as usize * 4);
     kani::cover!(n == 254);
     kani::cover!(n == 128);
+}
+
+// ---------------------------------------------------------------------------------------------
+// C02 (structural conditions only): the rejection conditions of Prio3 cannot be weakened unnoticed
+
+//@ harness: c02_verify_next_seed_compare
+//@ prop: C02
+//@ tier: quick
+//@ cost: 60
+//@ funcs: Prio3::verify_next (leader state), Seed::ct_eq
+//@ bounds: Prio3<SumVec<GF(17)>(1,2,2)> (joint_rand_len = 1), SEED_SIZE 4; every pair of 4-byte seeds (state's own vs message's), every output share
+//@ asserts: Finish with exactly the state's output share iff all seed bytes are equal; otherwise an error; never Continue
+//@ stubs: alloc::fmt::format; XOF = constant stream
+#[kani::proof]
+#[kani::unwind(8)]
+#[kani::stub(alloc::fmt::format, fmt_stub)]
+pub fn c02_verify_next_seed_compare() {
+    let vdaf: P3S = Prio3::new(2, 1, 0xFFFF_0002, SumVec::new(1, 2, 2).unwrap()).unwrap();
+    assert_eq!(vdaf.typ.joint_rand_len(), 1);
+    let (s1, s2): ([u8; 4], [u8; 4]) = (kani::any(), kani::any());
+    let out = [any_elem(), any_elem()];
+    let state = Prio3VerifyState::<Field8, 4> {
+        share: Share::Leader(out.to_vec()),
+        joint_rand_seed: Some(Seed::from_bytes(s1)),
+        agg_id: 0,
+        verifiers_len: 6,
+    };
+    let msg = Prio3VerifierMessage::<4> { joint_rand_seed: Some(Seed::from_bytes(s2)) };
+    let r = vdaf.verify_next(b"", state, msg);
+    match &r {
+        Ok(VerifyTransition::Finish(o)) => {
+            assert!(s1 == s2);
+            let d: &[Field8] = o.as_ref();
+            assert!(d.len() == 2 && d[0] == out[0] && d[1] == out[1]);
+        }
+        Ok(VerifyTransition::Continue(..)) => panic!("Prio3 has a single round"),
+        Err(_) => assert!(s1 != s2),
+    }
+    kani::cover!(r.is_ok());
+    kani::cover!(r.is_err() && s1[0] == s2[0] && s1[1] == s2[1] && s1[2] == s2[2]);
+    core::mem::forget(r);
+}
+
+//@ harness: c02_all_proofs_must_verify
+//@ prop: C02,C05
+//@ tier: quick
+//@ cost: 120
+//@ funcs: Prio3::verifier_shares_to_message (multi-proof), Flp::decide (Count)
+//@ bounds: Prio3<Count<GF(17)>> with 2 proofs, 2 aggregators; the leader's verifier share arbitrary (8 elements), the helper's all zero
+//@ asserts: accepted iff *each* proof's summed verifier satisfies the decision predicate (v0 = 0 and v1*v2 = v3)
+//@ stubs: alloc::fmt::format; XOF = constant stream
+#[kani::proof]
+#[kani::unwind(10)]
+#[kani::stub(alloc::fmt::format, fmt_stub)]
+pub fn c02_all_proofs_must_verify() {
+    let vdaf: P3C = Prio3::new(2, 2, 0xFFFF_0001, Count::new()).unwrap();
+    let v = [any_elem(), any_elem(), any_elem(), any_elem(), any_elem(), any_elem(), any_elem(), any_elem()];
+    let a = Prio3VerifierShare::<Field8, 4> { verifiers: v.to_vec(), joint_rand_part: None };
+    let b = Prio3VerifierShare::<Field8, 4> { verifiers: vec![Field8::zero(); 8], joint_rand_part: None };
+    let r = vdaf.verifier_shares_to_message(b"", &(), [a, b]);
+    let ok = |k: usize| v[k] == Field8::zero() && v[k + 1] * v[k + 2] == v[k + 3];
+    assert_eq!(r.is_ok(), ok(0) && ok(4));
+    kani::cover!(r.is_ok());
+    kani::cover!(ok(0) && !ok(4));
+    kani::cover!(!ok(0) && ok(4));
+    core::mem::forget(r);
 }
